@@ -419,3 +419,202 @@ Section MinLen.
     - intros y [<-|[]]. destruct (valid_dfa_parts m Hv) as (_ & _ & _ & _ & _ & H & _). exact H.
   Qed.
 End MinLen.
+
+(* ---------- reachability, emptiness, maximum_word_length ---------- *)
+Section MaxLen.
+  Variable m : dfa.
+  Hypothesis Hv : valid_dfa m = true.
+  Let q0 := d_init m.
+
+  Definition coacc (q : nat) : Prop := exists v, dfa_acc_from m (Some q) v = true.
+
+  Lemma run_snoc_from q w a x : dfa_run m (Some q) (w ++ [a]) = Some x ->
+    exists p, dfa_run m (Some q) w = Some p /\ d_delta m p a = Some x.
+  Proof.
+    rewrite dfa_run_app. simpl. destruct (dfa_run m (Some q) w) as [p|]; simpl; [|discriminate].
+    intro H. exists p. split; [reflexivity|exact H].
+  Qed.
+
+  Lemma reach_run q x : reach (targets m) [q] x <-> exists w, dfa_run m (Some q) w = Some x.
+  Proof.
+    split.
+    - intro H. induction H as [x Hx|x y Hr IH Hy].
+      + destruct Hx as [<-|[]]. exists []. reflexivity.
+      + destruct IH as [w Hw]. apply (targets_delta m Hv) in Hy. destruct Hy as [a Ha].
+        exists (w ++ [a]). rewrite dfa_run_app, Hw. simpl. exact Ha.
+    - intros [w Hw]. revert x Hw. induction w as [|a w IH] using rev_ind; intros x Hw.
+      + simpl in Hw. inversion Hw. apply reach_init. left. reflexivity.
+      + apply run_snoc_from in Hw. destruct Hw as [p [Hp Hd]].
+        eapply reach_step; [apply IH; exact Hp|]. apply (targets_delta m Hv). exists a. exact Hd.
+  Qed.
+
+  Lemma reach_from_ok q : In q (d_states m) ->
+    exists l, reach_from m q = Ok l /\ forall x, In x l <-> exists w, dfa_run m (Some q) w = Some x.
+  Proof.
+    intro Hq. unfold reach_from.
+    destruct (closure Nat.eqb (targets m) (S (length (d_states m))) [q]) as [l|] eqn:E.
+    - exists l. split; [reflexivity|]. intro x. rewrite <- reach_run. split.
+      + apply (closure_sound nat Nat.eqb eqb_nat_ok _ _ _ _ E).
+      + apply (closure_complete nat Nat.eqb eqb_nat_ok _ _ _ _ E).
+    - exfalso. revert E. apply (closure_fuel nat Nat.eqb eqb_nat_ok (targets m) (d_states m)).
+      + intros x y Hx Hy. apply (targets_delta m Hv) in Hy. destruct Hy as [a Ha].
+        apply (delta_in_states m Hv) in Ha. tauto.
+      + intros y [<-|[]]. exact Hq.
+      + lia.
+  Qed.
+
+  Lemma acc_from_run q w : dfa_acc_from m (Some q) w = true <->
+    exists x, dfa_run m (Some q) w = Some x /\ is_final m x = true.
+  Proof.
+    unfold dfa_acc_from. destruct (dfa_run m (Some q) w) as [x|]; simpl.
+    - split; [intro H; exists x; split; [reflexivity|exact H]|]. intros [x' [E H]]. inversion E; subst. exact H.
+    - split; [discriminate|]. intros [x' [E _]]. discriminate.
+  Qed.
+
+  Lemma can_accept_spec q : In q (d_states m) ->
+    exists b, can_accept m q = Ok b /\ (b = true <-> coacc q).
+  Proof.
+    intro Hq. unfold can_accept. destruct (reach_from_ok q Hq) as [l [E Hl]]. rewrite E. simpl.
+    eexists. split; [reflexivity|]. rewrite existsb_exists. unfold coacc. split.
+    - intros [x [Hx Hf]]. apply Hl in Hx. destruct Hx as [w Hw]. exists w. apply acc_from_run. eauto.
+    - intros [w Hw]. apply acc_from_run in Hw. destruct Hw as [x [Hr Hf]]. exists x. split; [|exact Hf].
+      apply Hl. eauto.
+  Qed.
+
+  Lemma q0_state : In q0 (d_states m).
+  Proof. destruct (valid_dfa_parts m Hv) as (_ & _ & _ & _ & _ & H & _). exact H. Qed.
+
+  Theorem isempty_spec : exists b, isempty m = Ok b /\ (b = true <-> forall w, dfa_acc m w = false).
+  Proof.
+    unfold isempty. destruct (can_accept_spec q0 q0_state) as [b [E Hb]]. fold q0. rewrite E. simpl.
+    eexists. split; [reflexivity|]. unfold coacc in Hb. destruct b; simpl.
+    - split; [discriminate|]. intro H. destruct Hb as [Hb _]. destruct (Hb eq_refl) as [v Hv'].
+      unfold dfa_acc in H. fold q0 in H. rewrite H in Hv'. discriminate.
+    - split; [|reflexivity]. intros _ w. unfold dfa_acc. fold q0.
+      destruct (dfa_acc_from m (Some q0) w) eqn:E2; [|reflexivity].
+      destruct Hb as [_ Hb]. discriminate Hb. exists w. exact E2.
+  Qed.
+
+  Lemma keep_useful_spec l : incl l (d_states m) ->
+    exists r, keep_useful m l = Ok r /\ forall q, In q r <-> In q l /\ coacc q.
+  Proof.
+    induction l as [|x l IH]; intro Hi; simpl.
+    - exists []. split; [reflexivity|]. intro q. simpl. tauto.
+    - destruct IH as [r [E Hr]]; [intros y Hy; apply Hi; right; exact Hy|]. rewrite E. simpl.
+      destruct (can_accept_spec x (Hi x (or_introl eq_refl))) as [b [Eb Hb]]. rewrite Eb. simpl.
+      eexists. split; [reflexivity|]. intro q. destruct b.
+      + simpl. rewrite Hr. split.
+        * intros [<-|[H1 H2]]; [split; [left; reflexivity|apply Hb; reflexivity]|tauto].
+        * intros [[<-|H1] H2]; [left; reflexivity|right; tauto].
+      + rewrite Hr. split; [tauto|]. intros [[<-|H1] H2]; [|tauto].
+        apply Hb in H2. discriminate.
+  Qed.
+
+  (* layer d of the useful part: states reached by a word of length d from which a final state
+     can still be reached *)
+  Definition layer_ok (d : nat) (layer : list nat) : Prop :=
+    forall q, In q layer <-> (exists w, length w = d /\ dfa_run m (Some q0) w = Some q) /\ coacc q.
+
+  Lemma layer_states d layer : layer_ok d layer -> incl layer (d_states m).
+  Proof.
+    intros H q Hq. apply H in Hq. destruct Hq as [[w [_ Hr]] _].
+    pose proof (dfa_run_ok m Hv w (Some q0) q0_state) as Hok. rewrite Hr in Hok. exact Hok.
+  Qed.
+
+  Lemma coacc_pred p a q : d_delta m p a = Some q -> coacc q -> coacc p.
+  Proof. intros Hd [v Hv']. exists (a :: v). rewrite acc_from_cons, Hd. exact Hv'. Qed.
+
+  Lemma next_layer d layer : layer_ok d layer ->
+    exists next, keep_useful m (set_of (flat_map (targets m) layer)) = Ok next /\ layer_ok (S d) next.
+  Proof.
+    intro HL.
+    assert (Hi : incl (set_of (flat_map (targets m) layer)) (d_states m)).
+    { intros y Hy. apply (proj1 (set_of_In _ _)) in Hy. apply in_flat_map in Hy. destruct Hy as [p [_ Ht]].
+      apply (targets_delta m Hv) in Ht. destruct Ht as [a Ha]. apply (delta_in_states m Hv) in Ha. tauto. }
+    destruct (keep_useful_spec _ Hi) as [next [E Hn]]. exists next. split; [exact E|].
+    intro q. rewrite Hn, set_of_In, in_flat_map. split.
+    - intros [[p [Hp Ht]] Hc]. split; [|exact Hc]. apply HL in Hp. destruct Hp as [[w [Hl Hr]] _].
+      apply (targets_delta m Hv) in Ht. destruct Ht as [a Ha]. exists (w ++ [a]). split.
+      + rewrite app_length. simpl. lia.
+      + rewrite dfa_run_app, Hr. simpl. exact Ha.
+    - intros [[w [Hl Hr]] Hc]. split; [|exact Hc].
+      destruct w as [|a w'] using rev_ind; [discriminate|]. clear IHw'.
+      rewrite app_length in Hl. simpl in Hl. apply run_snoc_from in Hr. destruct Hr as [p [Hp Hd]].
+      exists p. split.
+      + apply HL. split; [exists w'; split; [lia|exact Hp]|]. eapply coacc_pred; eassumption.
+      + apply (targets_delta m Hv). exists a. exact Hd.
+  Qed.
+
+  Lemma acc_prefix w n : dfa_acc m w = true -> n <= length w ->
+    exists q, dfa_run m (Some q0) (firstn n w) = Some q /\ coacc q.
+  Proof.
+    intros Ha Hn. unfold dfa_acc, dfa_acc_from in Ha. fold q0 in Ha.
+    rewrite <- (firstn_skipn n w) in Ha at 1. rewrite dfa_run_app in Ha.
+    destruct (dfa_run m (Some q0) (firstn n w)) as [q|].
+    - exists q. split; [reflexivity|]. exists (skipn n w). exact Ha.
+    - rewrite dfa_run_None in Ha. discriminate.
+  Qed.
+
+  Definition lp_post (d fuel : nat) (r : res (option nat)) : Prop :=
+    match r with
+    | Ok (Some n) => (exists w, length w = n /\ dfa_acc m w = true) /\ (forall w, dfa_acc m w = true -> length w <= n)
+    | Ok None => exists w, dfa_acc m w = true /\ d + fuel <= length w
+    | Err _ => False
+    end.
+
+  Lemma layer_word d layer q : layer_ok d layer -> In q layer ->
+    exists w, dfa_acc m w = true /\ d <= length w.
+  Proof.
+    intros HL Hq. apply HL in Hq. destruct Hq as [[w [Hl Hr]] [v Hv']].
+    exists (w ++ v). split.
+    - unfold dfa_acc, dfa_acc_from. fold q0. rewrite dfa_run_app, Hr. exact Hv'.
+    - rewrite app_length. lia.
+  Qed.
+
+  Lemma lp_go_spec fuel : forall layer d, layer_ok d layer -> layer <> [] ->
+    lp_post d fuel (lp_go m fuel layer d).
+  Proof.
+    induction fuel as [|f IH]; intros layer d HL Hne; simpl.
+    - destruct layer as [|q l]; [congruence|].
+      destruct (layer_word d _ q HL (or_introl eq_refl)) as [w [Ha Hl]]. exists w. split; [exact Ha|lia].
+    - destruct (next_layer d layer HL) as [next [E HN]]. rewrite E. simpl.
+      destruct next as [|x nx] eqn:En.
+      + destruct layer as [|q l]; [congruence|].
+        assert (Hmax : forall w, dfa_acc m w = true -> length w <= d).
+        { intros w Ha. destruct (Nat.le_gt_cases (length w) d) as [H|H]; [exact H|]. exfalso.
+          destruct (acc_prefix w (S d) Ha H) as [q' [Hr Hc]].
+          assert (Hin : In q' []); [|destruct Hin].
+          apply HN. split; [|exact Hc]. exists (firstn (S d) w). split; [|exact Hr].
+          apply firstn_length_le. lia. }
+        split; [|exact Hmax].
+        destruct (layer_word d _ q HL (or_introl eq_refl)) as [w [Ha Hl]]. exists w. split; [|exact Ha].
+        specialize (Hmax w Ha). lia.
+      + rewrite <- En in *. assert (Hne' : next <> []) by (rewrite En; discriminate).
+        specialize (IH next (S d) HN Hne'). unfold lp_post in *.
+        destruct (lp_go m f next (S d)) as [[n|]|e]; [exact IH| |exact IH].
+        destruct IH as [w [Ha Hl]]. exists w. split; [exact Ha|lia].
+  Qed.
+
+  (* maximum_word_length without the pumping step: Some n is the exact maximum, None means some
+     accepted word is at least as long as the number of states, Empty iff the language is empty *)
+  Lemma max_len_pre :
+    match max_len m with
+    | Ok (Some n) => (exists w, length w = n /\ dfa_acc m w = true) /\ (forall w, dfa_acc m w = true -> length w <= n)
+    | Ok None => exists w, dfa_acc m w = true /\ length (d_states m) <= length w
+    | Err Empty => forall w, dfa_acc m w = false
+    | Err _ => False
+    end.
+  Proof.
+    unfold max_len. destruct isempty_spec as [b [E Hb]]. rewrite E. simpl. destruct b.
+    - apply Hb. reflexivity.
+    - assert (Hc : coacc q0).
+      { destruct (can_accept_spec q0 q0_state) as [b' [E' Hb']]. unfold isempty in E. fold q0 in E.
+        rewrite E' in E. simpl in E. inversion E as [E2]. apply Hb'. destruct b'; [reflexivity|discriminate]. }
+      assert (HL : layer_ok 0 [q0]).
+      { intro q. split.
+        - intros [<-|[]]. split; [exists []; split; reflexivity|exact Hc].
+        - intros [[w [Hl Hr]] _]. destruct w; [|discriminate]. simpl in Hr. inversion Hr. left. reflexivity. }
+      pose proof (lp_go_spec (length (d_states m)) [q0] 0 HL ltac:(discriminate)) as H.
+      unfold lp_post in H. fold q0. destruct (lp_go m (length (d_states m)) [q0] 0) as [[n|]|e]; [exact H|exact H|destruct H].
+  Qed.
+End MaxLen.
